@@ -1028,6 +1028,10 @@ where
                     "an RcRecursion referring to a previously defined recursive strong anchor (via alias)",
                 )
             }
+            // `null` (what a dangling link serializes to) gives a dangling link back.
+            fn visit_unit<E: serde::de::Error>(self) -> Result<Self::Value, E> {
+                Ok(RcRecursion(RcWeak::new()))
+            }
             fn visit_newtype_struct<D>(self, deserializer: D) -> Result<Self::Value, D::Error>
             where
                 D: serde::de::Deserializer<'de>,
@@ -1072,6 +1076,10 @@ where
                 f.write_str(
                     "an ArcRecursion referring to a previously defined recursive strong anchor (via alias)",
                 )
+            }
+            // `null` (what a dangling link serializes to) gives a dangling link back.
+            fn visit_unit<E: serde::de::Error>(self) -> Result<Self::Value, E> {
+                Ok(ArcRecursion(ArcWeak::new()))
             }
             fn visit_newtype_struct<D>(self, deserializer: D) -> Result<Self::Value, D::Error>
             where
